@@ -1,0 +1,21 @@
+//go:build verif
+
+package resolvers
+
+// Contracts for the GraphQL mutation resolvers (property C17).
+// Comment-only file: it is compiled only with -tags verif and contains no code.
+
+//@ func mutationResolver.getRepo
+//@   props C17
+//@   modifies nothing
+//@ func mutationResolver.getBug
+//@   props C17
+//@   modifies nothing
+
+// One contract for every method of graph.MutationResolver (enumerated from the interface, so a
+// mutation added later is under the same contract): without a user in the context the call is
+// refused and nothing that can write has been called.
+//@ func mutationResolver.* implementing graph.MutationResolver
+//@   props C17
+//@   requires ctx != nil
+//@   ensures [refused] !auth.hasUser(ctx) ==> err != nil && cache.repoWrites == old(cache.repoWrites)
